@@ -297,6 +297,8 @@ class CrcFamily(Family):
         # path), against an independent bytewise reference computed in the harness
         mids = [65535, 65536, 65537, 100003, 1 << 20, (1 << 20) + 13] + ([5000011, 16777216 + 5] if tier == "thorough" else [])
         yield ("crc:mid", ["crc.big %d %d" % (n, al) for n in mids for al in range(8)]); stats.bump("crc_64KiB_to_MiB_all_alignments")
+        # the function is pure: concurrent calls on different (misaligned) buffers must not disturb one another
+        yield ("crc:mt", ["crc.mt 4 8191 %d" % (3000 if tier == "quick" else 40000), "crc.mt 6 60001 %d" % (400 if tier == "quick" else 6000)]); stats.bump("crc_concurrent_calls")
         # buffers of 4 GiB and more (size_t arithmetic of the loops): thorough tier, and whenever the case budget is enlarged
         # because a proof obligation or the tie broke
         if tier == "thorough" or mult > 1.5:
@@ -321,6 +323,10 @@ class CrcFamily(Family):
                 vals = set(v for v in f.values() if v != "unsupported")
                 if r["real"].startswith("big ") and len(vals) > 1:
                     fails.append(("C17", "buffer of %s bytes at alignment %s: the implementations disagree%s: %s" % (t[1], t[2], " with the standard CRC-32C (ref)" if "ref" in f else "", r["real"]), i))
+                continue
+            if t[0] == "crc.mt":
+                if not r["real"].startswith("mt ok"):
+                    fails.append(("C17", "%s threads checksumming their own %s-byte buffers concurrently: %s (a result is not the CRC-32C of its buffer)" % (t[1], t[2], r["real"]), i))
                 continue
             if t[0] != "crc":
                 continue
@@ -1293,13 +1299,82 @@ class PooledFamily(Family):
 
 FAMILIES["pooled"] = PooledFamily
 
-reg("C13", ["tp", "pooled"], "mtbl/threadpool.c compiled unmodified into harness/tp_drv.c with every pthread call routed to a deterministic, externally driven scheduler (one turn = one step of the Lean machine, scheduling points at lock attempts, condition waits, thread creation, joins, exits); "
+
+class TpMultiFamily(Family):
+    """SEVERAL clients sharing one pool (each with its own result handler; a pool owner creates the pool, starts the clients,
+    joins them and destroys the pool), mtbl/threadpool.c unmodified under the deterministic scheduler of harness/tp_drv.c,
+    random schedules with spurious wake-ups.  No Lean machine runs alongside (the machine has one client): the scheduler
+    reports dead-locks and mutex misuse, the run reports every client's deliveries and the largest worker count."""
+    name = "tpmulti"
+    variant = "sched"
+    def cases(self, pid, seed, tier, mult, stats):
+        rng = Rng(seed * 49979687 + 3)
+        for i in range(budget(tier, 250, 4000, mult)):
+            clients = rng.pick([2, 2, 2, 3, 3, 4]); mx = rng.pick([1, 2, 2, 3, 4]); jobs = rng.pick([1, 2, 3, 4, 6]); o = rng.below(2)
+            stats.bump("tpmulti_clients_%d" % clients); stats.bump("tpmulti_max_%d" % mx)
+            lines = ["tp.multi clients=%d max=%d jobs=%d ord=%d" % (clients, mx, jobs, o)]
+            lines += ["tp.auto %d" % (rng.next() & 0x3fffffff) for _ in range(400 + 260 * clients * jobs)]
+            yield ("tpmulti:%d:%d" % (seed, i), lines)
+    def run(self, exe, lines):
+        pr = vlib.Proc([exe])
+        res = []
+        try:
+            for l in lines:
+                reply, _ = pr.ask(l)
+                res.append({"req": l, "real": reply, "model": reply, "side": []})
+                if pr.dead or reply.startswith("pick none") or "PROBLEM" in reply:
+                    break
+        finally:
+            pr.close()
+        if res:
+            res[-1]["stderr"] = getattr(pr, "stderr", "")[-2000:]
+        return res
+    def oracle(self, res):
+        fails = []
+        if not res:
+            return fails
+        kv = dict(a.split("=", 1) for a in res[0]["req"].split(" ")[1:])
+        clients, mx, jobs, o = int(kv["clients"]), int(kv["max"]), int(kv["jobs"]), int(kv["ord"])
+        last = res[-1]["real"]
+        for i, r in enumerate(res):
+            real = r["real"]
+            if real in ("asan", "abort", "hang") or real.startswith("crash"):
+                fails.append(("C13", "pool shared by %d clients: the program died / hung: %s %s" % (clients, real, res[-1].get("stderr", "")[-300:]), i)); return fails
+            if "PROBLEM=" in real:
+                fails.append(("C13", "pool shared by %d clients: %s" % (clients, real[real.index("PROBLEM="):][:200]), i)); return fails
+            m = re.search(r"maxcount=(\d+)", real)
+            if m and int(m.group(1)) > mx:
+                fails.append(("C13", "pool shared by %d clients runs %s worker threads, configured maximum %d" % (clients, m.group(1), mx), i)); return fails
+        if last.startswith("pick none") and " done " not in last:
+            fails.append(("C13", "pool shared by %d clients (max=%d jobs=%d ordered=%d): dead-lock — no thread can run and the pool owner has not returned: %s" % (clients, mx, jobs, o, last[:200]), len(res) - 1))
+        elif " done " in last:
+            for c in range(clients):
+                m = re.search(r"del%d=\[([^\]]*)\]" % c, last)
+                got = [int(x) for x in m.group(1).split(",") if x] if m else None
+                want = list(range(jobs))
+                if got is None or (got != want if o else sorted(got) != want):
+                    fails.append(("C13", "pool shared by %d clients: client %d was delivered %s, submitted %s (%s)" % (clients, c, got, want, "in order" if o else "any order"), len(res) - 1))
+        elif not last.startswith("pick none"):
+            fails.append(("C13", "pool shared by %d clients: not finished after %d turns (bound on real steps exceeded): %s" % (clients, len(res), last[:160]), len(res) - 1))
+        return fails
+    def tie_props(self, res, idx):
+        return set()
+    def nontrivial(self, pid, lines, res):
+        return bool(res) and " done " in res[-1]["real"]
+    def keep_prefix(self, lines):
+        return 1
+
+FAMILIES["tpmulti"] = TpMultiFamily
+
+reg("C13", ["tp", "tpmulti", "pooled"], "mtbl/threadpool.c compiled unmodified into harness/tp_drv.c with every pthread call routed to a deterministic, externally driven scheduler (one turn = one step of the Lean machine, scheduling points at lock attempts, condition waits, thread creation, joins, exits); "
     "pool sizes 1..6, 0..12 jobs, ordered and unordered delivery, random schedules with spurious wake-ups; after every turn the visible state (count, idle list, result queue, outstanding counter, finished flag, per-thread running/cb/res/rq, delivered results) and the sets of enabled and sleeping threads are compared with the machine; "
     "oracle on the real run: count <= max, no result twice, ordered results in order, all results at the end, no deadlock, no mutex misuse; plus writers and sorters with real pools (0..8 threads) under the OS scheduler against the sequential model (byte-identical files, same entries); non-trivial = the run reached the end (tp) / >= 2 blocks or spills (pooled)",
     ["pthread mutex/condition semantics incl. spurious wake-ups (the scheduler implements them); a critical section is one atomic step (rests on data-race freedom, C14)",
      "pooled writer = sequential writer for every interleaving of adds and in-order deliveries (C13_writer), pooled sorter output for every completion order of the chunk jobs (C13_sorter): the two theorems take from the machine that results are delivered in dispatch order / each exactly once / all before the join (C13_order, C13_complete) and from C14 that caller and handler touch disjoint fields",
      "termination is proved through a progress measure for every schedule with finitely many spurious wake-ups (C13_progress, C13_steps_bounded, C13_no_hang, C13_can_finish); that the OS keeps scheduling some runnable thread is assumed",
-     "thread creation does not fail"], variants=["sched", "A"], max_s={"quick": 100, "thorough": 1500})
+     "thread creation does not fail",
+     "several callers on one pool: pool-level theorems for any number of callers (C13_shared_bound, C13_shared_exclusive, C13_shared_no_lost_wakeup over MtblModel/TpShare.lean), the signal-site table regenerated from threadpool.c (C13_signal_sites) and the tpmulti family (2-4 clients under the deterministic scheduler: dead-lock, mutex misuse, deliveries, bound); there is no k-client machine, so no lockstep comparison for that configuration"],
+    generated=["OwnerSites"], variants=["sched", "A"], max_s={"quick": 150, "thorough": 1800})
 
 
 # ------------------------------------------------------------------ the concurrent uses the API allows, under ThreadSanitizer (C14)
